@@ -358,16 +358,18 @@ theorem appendIndexed_fr {n : Sizes} {g : Grows} {h h' : Heap} {prev v : Var} {s
 /-- `assignVal` writes only fresh storage — in the current variant always, in the pinned variant
     provided a `+=word` onto an indexed array finds storage the child owns. -/
 theorem assignVal_fr {n : Sizes} {fx : Bool} {g : Grows} {h h' : Heap} {prev v : Var} {append : Bool}
-    {rhs : Rhs} {vt : ValType} (hn : n.le h)
+    {rhs : Rhs} {vt : ValType} {hasIdx : Bool} (hn : n.le h)
     (safe : fx = true ∨ (append = true → (∃ s, rhs = .str s) → prev.kind = .indexed →
       Owned n.strs prev.list ∧ Owned n.ints prev.indexes))
-    (e : assignVal fx g h prev append rhs vt = some (h', v)) : HeapFr n h h' := by
+    (e : assignVal fx g h prev append rhs vt hasIdx = some (h', v)) : HeapFr n h h' := by
   unfold assignVal at e
   split at e
   · next s =>
     split at e
     · cases e; exact HeapFr.refl hn
     · next happ =>
+      split at e
+      · cases e; exact HeapFr.refl hn
       split at e
       · cases e; exact HeapFr.refl hn
       · cases e; exact HeapFr.refl hn
@@ -396,8 +398,9 @@ theorem assignVal_fr {n : Sizes} {fx : Bool} {g : Grows} {h h' : Heap} {prev v :
 /-! ### setVarWithIndex, unsetElem -/
 
 theorem setIndexedVar_fr {n : Sizes} {g : Grows} {r : Runner} {h h' : Heap} {prev : Var} {name val : Bytes}
-    {k : Int} {list indexes : Slice} (inv : Inv n r h) (ol : Owned n.strs list) (oi : Owned n.ints indexes)
-    (e : setIndexedVar g r h prev name k val list indexes = some h') : HeapFr n h h' := by
+    {k : Int} {list indexes : Slice} {ae : Bool} (inv : Inv n r h) (ol : Owned n.strs list)
+    (oi : Owned n.ints indexes)
+    (e : setIndexedVar g r h prev name k val list indexes ae = some h') : HeapFr n h h' := by
   unfold setIndexedVar at e
   split at e
   · cases e; exact HeapFr.refl inv.le
@@ -417,7 +420,8 @@ theorem cloneOrMake_fr {n : Nat} (ms : MapHeap Bytes Bytes) (m : Option Nat) (hn
     exact ⟨h1.1.trans h2.1, h2.2⟩
 
 theorem setVarWithIndex_fr {n : Sizes} {g : Grows} {r : Runner} {h h' : Heap} {prev vr : Var} {name : Bytes}
-    {idx : Idx} (inv : Inv n r h) (e : setVarWithIndex g r h prev name idx vr = some h') : HeapFr n h h' := by
+    {idx : Idx} {ae : Bool} (inv : Inv n r h) (e : setVarWithIndex g r h prev name idx vr ae = some h') :
+    HeapFr n h h' := by
   unfold setVarWithIndex at e
   split at e
   · exact setVar_fr inv e
